@@ -41,6 +41,12 @@ func defaultNwTree(code []int) nwTree {
 var nwNames = []string{"", "a", " ", "_", "'", "''", "'a'", "a'b", "(", ")", ",", ":", ";", "\t", "\n", "\r", "a b", "a_b", "a b_c", "[x]", "1.5", "\n\n", "a\nb", "\x00", "\x80"}
 var nwDists = []string{"-0", "1", "-1.5", "1e-05", "1e+21", "5e-324", "1.7976931348623157e+308", "NaN", "+Inf", "-Inf", "0.1"}
 
+// nwWholeDists: whole numbers at the boundaries of the integer types and of float64's exact
+// integer range (a writer that special-cases whole numbers must get all of them right).
+var nwWholeDists = []string{"255", "256", "32767", "32768", "65535", "65536", "999999", "1e+06", "2147483647", "2147483648", "-2147483648", "-2147483649", "4294967295", "4294967296",
+	"9007199254740991", "9007199254740992", "9007199254740994", "9223372036854774784", "9223372036854775808", "-9223372036854775808", "9223372036854777856", "-9223372036854777856",
+	"18446744073709551616", "1e+15", "1e+20", "1e+22", "123456789012345680", "-1e+19"}
+
 // newickShape checks the written form: ends with ';', and no whitespace byte outside quotes.
 func newickShape(out []byte) string {
 	if len(out) == 0 || out[len(out)-1] != ';' {
@@ -232,6 +238,25 @@ func runC05(r *core.Run) {
 						if !emit(t) {
 							return
 						}
+					}
+				}
+			}
+		},
+		func(t nwTree) core.Outcome {
+			if out := checkNewickRoundTrip(t); out.Fail != "" {
+				return out
+			}
+			return core.Outcome{Class: "ok", Nontrivial: true, Evals: 3}
+		})
+
+	core.Clause(r, "whole-number-distances", core.Opts{Rule: "every listed whole-number distance (integer-type and 2^53 boundaries, both signs) on the leaf, inner node and root of a 3-node tree; non-trivial = all"},
+		func(emit func(nwTree) bool) {
+			for _, d := range nwWholeDists {
+				for pos := 0; pos < 3; pos++ {
+					t := defaultNwTree([]int{1, 1, 0})
+					t.Dists[pos] = d
+					if !emit(t) {
+						return
 					}
 				}
 			}
